@@ -485,15 +485,13 @@ Definition opt_all {A} (p : A -> bool) (o : option A) : bool := match o with Som
 (* piece i of data file d is the blob's piece i *)
 Definition piece_ok (c : cfg) (d : bytes) (i : nat) : bool := bytes_eqb (region c d i) (region c (c_blob c) i).
 
-(* a status vector is empty (created, not yet written) or has one entry per piece, and every piece
-   it marks complete holds the blob's bytes in data file d *)
-Definition status_ok (c : cfg) (d : bytes) (b : bytes) : bool :=
-  match b with
-  | [] => true
-  | _ => (length b =? npieces c)
-         && forallb (fun i => negb (N.eqb (nth i b 0%N) 1) || piece_ok c d i) (seq 0 (npieces c))
-  end.
-Definition no_ones (b : bytes) : bool := forallb (fun x => negb (N.eqb x 1)) b.
+(* a status vector is empty (created, not yet written) or has one entry per piece ... *)
+Definition shape_ok (c : cfg) (b : bytes) : bool :=
+  match b with [] => true | _ => length b =? npieces c end.
+(* ... and every piece it marks complete holds the blob's bytes in data file d *)
+Definition marks_ok (c : cfg) (d : bytes) (b : bytes) : bool :=
+  forallb (fun i => negb (N.eqb (nth i b 0%N) 1) || piece_ok c d i) (seq 0 (npieces c)).
+Definition status_ok (c : cfg) (d : bytes) (b : bytes) : bool := shape_ok c b && marks_ok c d b.
 
 Definition DIb (c : cfg) (s : fs) : bool :=
   (* the cache file, if any, is the blob *)
@@ -503,7 +501,7 @@ Definition DIb (c : cfg) (s : fs) : bool :=
      | Some d => (length d <=? blen c) && opt_all (status_ok c d) (d_status (dl s))
      | None =>
          (* no download file: a left-over status vector with marks exists only once the blob is cached *)
-         match d_data (ca s) with Some _ => true | None => opt_all no_ones (d_status (dl s)) end
+         match d_data (ca s) with Some _ => true | None => opt_all (status_ok c []) (d_status (dl s)) end
      end.
 
 (* every crash point of a trace satisfies the invariant *)
